@@ -329,7 +329,7 @@ const evSource = "fieldfn:H.server.proxy.BaseProxy.getWorkConnFn"
 // announcement fails is closed, not parked.
 //
 //verif:contract (*~/server/proxy.BaseProxy).GetWorkConnFromPool
-//verif:props C11 C01
+//verif:props C11 C01 C10
 func verif_GetWorkConnFromPool(pxy *BaseProxy, src, dst net.Addr) {
 	name := pxy.GetName()
 	verif.ResetEvents()
@@ -365,6 +365,16 @@ func verif_GetWorkConnFromPool(pxy *BaseProxy, src, dst net.Addr) {
 		}
 	}
 	_ = wc
+}
+
+// Another attempt is made only after an announcement failed, and the work
+// connection that could not be announced was closed first (C10: dead pooled
+// connections are not left open until the session ends).
+//
+//verif:loopbody (*~/server/proxy.BaseProxy).GetWorkConnFromPool 1 check=verifRetryClosesTheDeadConnection
+func verifRetryClosesTheDeadConnection() bool {
+	return verif.CalledInIter("pkg/msg.WriteMsg") && verif.IterRet[error]("pkg/msg.WriteMsg", 0) != nil &&
+		(verif.CalledInIter("net.Conn).Close") || verif.CalledInIter("ContextConn).Close"))
 }
 
 //verif:loop (*~/server/proxy.BaseProxy).GetWorkConnFromPool 1 inv=verifLoopPoolTries args=err
@@ -532,7 +542,7 @@ func verifHTTPSListenerRecorded(pxy *HTTPSProxy, domain string) bool {
 }
 
 //verif:contract (*~/server/proxy.TCPMuxProxy).Run
-//verif:props C10 C06
+//verif:props C10 C06 C13
 func verif_TCPMuxProxy_Run(pxy *TCPMuxProxy) {
 	verif.ResetEvents()
 	_, err := pxy.Run()
@@ -697,6 +707,26 @@ func verif_UDPProxy_workConnSender(conn net.Conn, ctx context.Context) {
 func verifUDPWorkConnLoopStep(pxy *UDPProxy) bool {
 	if !verif.CalledInIter("context.WithCancel") {
 		return true
+	}
+	// ... and the stream installed is the work connection under exactly the
+	// declared layers, each decided by its own switch, in the order the client
+	// undoes them: encryption keyed by the token directly on the connection,
+	// compression above it (C03: both ends build the same stack, or the framing
+	// is garbage)
+	const evComp = "golib/io.WithCompression$"
+	enc, comp := pxy.cfg.Transport.UseEncryption, pxy.cfg.Transport.UseCompression
+	wc := verif.IterRet[net.Conn](evPoolConn, 0)
+	if verif.CalledInIter(evEncS) != enc || verif.CalledInIter(evComp) != comp {
+		return false
+	}
+	if enc && !(verif.Same(verif.IterArg[io.ReadWriteCloser](evEncS, 0), io.ReadWriteCloser(wc)) && verif.Same(verif.IterArg[[]byte](evEncS, 1), []byte(pxy.serverCfg.Auth.Token))) {
+		return false
+	}
+	if comp && enc && !verif.Same(verif.IterArg[io.ReadWriteCloser](evComp, 0), verif.IterRet[io.ReadWriteCloser](evEncS, 0)) {
+		return false
+	}
+	if comp && !enc && !verif.Same(verif.IterArg[io.ReadWriteCloser](evComp, 0), io.ReadWriteCloser(wc)) {
+		return false
 	}
 	return verif.CalledInIter("context.WithCancel$fn$")
 }
